@@ -1,6 +1,6 @@
 (* Stepping lemmas for Prelude/PyAst.v's interpreter (statement by statement, loops as named fixpoints), used by the
    tie proofs Flow_asn1_*.v.  Generic in the world. *)
-From V Require Import Prelude.Base Prelude.PyAst.
+From V Require Import Prelude.Base Prelude.PySlice Prelude.PyAst.
 Local Open Scope string_scope.
 Local Open Scope list_scope.
 
@@ -170,6 +170,35 @@ End Steps.
 Global Opaque exec exec_block.
 Arguments while_loop : simpl never.
 Arguments for_each : simpl never.
+
+Lemma len3 {A} (a b c : A) : len [a; b; c] = 3. Proof. reflexivity. Qed.
+Lemma len2 {A} (a b : A) : len [a; b] = 2. Proof. reflexivity. Qed.
+Lemma len1 {A} (a : A) : len [a] = 1. Proof. reflexivity. Qed.
+Lemma vb_truth (b : bool) : negb (Z.eqb (if b then 1 else 0) 0) = b.
+Proof. destruct b; reflexivity. Qed.
+
+(* one interpreter step (the generic `autorewrite with pyexec` is much slower) *)
+Ltac step1 :=
+  match goal with
+  | |- context [exec_block ?W ?f [] ?env] => rewrite (exec_block_nil W f env)
+  | |- context [exec_block ?W ?f (?s :: ?r) ?env] => rewrite (exec_block_cons W f s r env)
+  | |- context [exec ?W ?f ?env (SAssign ?xs ?e)] => rewrite (exec_assign W f env xs e)
+  | |- context [exec ?W ?f ?env (SSetAttr ?x ?a ?e)] => rewrite (exec_setattr W f env x a e)
+  | |- context [exec ?W ?f ?env (SReturn ?e)] => rewrite (exec_return W f env e)
+  | |- context [exec ?W ?f ?env (SRaise ?e)] => rewrite (exec_raise W f env e)
+  | |- context [exec ?W ?f ?env (SExpr ?e)] => rewrite (exec_expr W f env e)
+  | |- context [exec ?W ?f ?env SBreak] => rewrite (exec_break W f env)
+  | |- context [exec ?W ?f ?env SContinue] => rewrite (exec_continue W f env)
+  | |- context [exec ?W ?f ?env SPass] => rewrite (exec_pass W f env)
+  | |- context [exec ?W ?f ?env (SIf ?c ?a ?b)] => rewrite (exec_if W f env c a b)
+  | |- context [exec ?W ?f ?env (SWhile ?c ?b)] => rewrite (exec_while W f env c b)
+  | |- context [exec ?W ?f ?env (SFor ?xs ?it ?b)] => rewrite (exec_for W f env xs it b)
+  end.
+Ltac py := repeat (progress (repeat step1; unfold test; cbn; rewrite ?len3, ?len2, ?len1, ?index_0)).
+(* locals of an abstract environment known through hypotheses `lookup x env = Some v` *)
+Ltac lk := repeat match goal with H : lookup _ _ = Some _ |- _ => rewrite H end.
+Ltac pye := repeat (progress (py; lk)).
+Ltac start W kk := (rewrite (run_unfold W)); unfold kk; cbn [bind_params pf_params pf_body].
 
 Global Hint Rewrite @exec_block_nil @exec_block_cons @exec_assign @exec_setattr @exec_return @exec_raise @exec_expr
   @exec_break @exec_continue @exec_pass @exec_if @exec_while @exec_for : pyexec.
